@@ -15,6 +15,7 @@ import (
 	"math/rand"
 	"os"
 	"strings"
+	"sync"
 	"sync/atomic"
 
 	syscall "golang.org/x/sys/unix"
@@ -68,6 +69,9 @@ func c01Label(site string) string {
 func c01Gen(r *rand.Rand, tier string, idx int) []string {
 	if idx%200 == 57 {
 		return []string{fmt.Sprintf("xcreate %d", 1+r.Intn(8))}
+	}
+	if idx%250 == 113 {
+		return []string{fmt.Sprintf("rrace %d %d", 20+r.Intn(40), 400)}
 	}
 	if idx%10 == 9 {
 		cfg := []string{"16:6", "8:6,32:4", "16:4,64:3", "8:3,16:3,64:2", "32:2"}[r.Intn(5)]
@@ -611,7 +615,89 @@ func c01SecondCreator(f []string) vResult {
 	return res
 }
 
+// rrace <pinned> <rounds>: two goroutines give the same receive buffer back at the same time - Stream.close -> clean ->
+// recvBuf.recycle() racing the recycle() that fillDataToReadBuffer does for data arriving on a stream that is being closed
+// (the case linkedBuffer.recycleMux exists for) - while the buffer has <pinned> parked slices. Real parallelism, no
+// scheduler: afterwards every slot must be in the free list exactly once.
+func c01RecycleRace(f []string) vResult {
+	res := vResult{noModel: true, out: []string{"done"}, tags: []string{"concurrent-recycle"}}
+	pinned, rounds := vAtoi(f[1]), vAtoi(f[2])
+	if pinned < 1 || pinned > 60 || rounds < 1 || rounds > 5000 {
+		res.out = []string{"bad-op"}
+		return res
+	}
+	for r := 0; r < rounds && res.specFail == ""; r++ {
+		_, bm, _, err := c06BuildMem([]int{16}, []int{64})
+		if err != nil {
+			res.specFail, res.key = err.Error(), "setup"
+			return res
+		}
+		lb := newEmptyLinkedBuffer(bm)
+		for i := 0; i < pinned; i++ {
+			b, err := bm.allocShmBuffer(16)
+			if err != nil {
+				res.specFail, res.key = err.Error(), "setup"
+				return res
+			}
+			lb.pinnedList.pushBack(b)
+		}
+		start := make(chan struct{})
+		var wg sync.WaitGroup
+		var pan atomic.Value
+		for g := 0; g < 2; g++ {
+			wg.Add(1)
+			go func() {
+				defer wg.Done()
+				defer func() {
+					if e := recover(); e != nil {
+						pan.Store(fmt.Sprint(e))
+					}
+				}()
+				<-start
+				lb.recycle()
+			}()
+		}
+		close(start)
+		wg.Wait()
+		l := bm.lists[0]
+		if p := pan.Load(); p != nil {
+			res.specFail, res.key = fmt.Sprintf("round %d: two concurrent recycle() calls on one buffer with %d parked slices: panic: %v", r, pinned, p), "concurrent-recycle-double-free"
+			break
+		}
+		// S (C01/C02): every slot is free exactly once
+		seen := map[uint32]bool{}
+		n, off, circ := 0, atomic.LoadUint32(l.head), false
+		for n <= 2*int(*l.cap) {
+			if seen[off] {
+				circ = true
+				break
+			}
+			seen[off] = true
+			n++
+			if int(off)+bufferHeaderSize > len(l.bufferRegion) {
+				circ = true
+				break
+			}
+			bh := bufferHeader(l.bufferRegion[off:])
+			if !bh.hasNext() {
+				break
+			}
+			off = bh.nextBufferOffset()
+		}
+		if int(*l.size) != int(*l.cap) || n != int(*l.cap) || circ {
+			res.specFail = fmt.Sprintf("round %d: two concurrent recycle() calls on one buffer with %d parked slices; nothing is held any more, yet the free list says size=%d of %d and its chain visits %d slots (circular or out of range: %v): a parked slice was given back twice", r, pinned, *l.size, *l.cap, n, circ)
+			res.key = "concurrent-recycle-double-free"
+		}
+	}
+	return res
+}
+
 func c01Exec(ops []string) vResult {
+	if len(ops) == 1 && strings.HasPrefix(ops[0], "rrace ") {
+		if f := vFields(ops[0]); len(f) == 3 {
+			return c01RecycleRace(f)
+		}
+	}
 	if len(ops) == 1 && strings.HasPrefix(ops[0], "xcreate ") {
 		if f := vFields(ops[0]); len(f) == 2 {
 			return c01SecondCreator(f)
